@@ -35,19 +35,23 @@
    are in LowerBoolProofs.v.  The tables compare_map and halt_inversion come from the REGENERATED
    Gen/GenTables.v, so the model prints what today's tables say. *)
 From Coq Require Import ZArith List Bool Lia String Ascii Decimal DecimalString.
-From HidV Require Import Machine AsmText GenTables GenEscape OpTables.
+From HidV Require Import Machine AsmText GenTables GenEscape GenStdlib OpTables.
 Import ListNotations.
 Open Scope Z_scope.
 
 (* ---------- labels: add_label numbers each NAME separately ---------- *)
 Inductive lname := LCompareIsTrue | LCompareEnd | LLeftIsTrue | LAndEnd | LLeftIsFalse | LOrEnd
-                 | LIsTrue | LBoolEnd | LElse | LEndElse | LLoop | LContinue | LBreak.
+                 | LIsTrue | LBoolEnd | LElse | LEndElse | LLoop | LContinue | LBreak | LEndCall
+                 | LDivAllowed | LNoOverflow
+                 | LFunc (f : nat).      (* func_<name of the f-th function>; only number 0 (no overloading) *)
 Definition lname_eqb (a b : lname) : bool :=
   match a, b with
   | LCompareIsTrue, LCompareIsTrue | LCompareEnd, LCompareEnd | LLeftIsTrue, LLeftIsTrue
   | LAndEnd, LAndEnd | LLeftIsFalse, LLeftIsFalse | LOrEnd, LOrEnd | LIsTrue, LIsTrue
   | LBoolEnd, LBoolEnd | LElse, LElse | LEndElse, LEndElse
-  | LLoop, LLoop | LContinue, LContinue | LBreak, LBreak => true
+  | LLoop, LLoop | LContinue, LContinue | LBreak, LBreak | LEndCall, LEndCall
+  | LDivAllowed, LDivAllowed | LNoOverflow, LNoOverflow => true
+  | LFunc f, LFunc g => Nat.eqb f g
   | _, _ => false
   end.
 Definition label := (lname * nat)%type.
@@ -61,9 +65,12 @@ Definition add_label (nm : lname) (st : lstate) : label * lstate :=
 (* ---------- abstract assembly lines ---------- *)
 Inductive reg := RAp | RFp | R0 | R1 | R2 | RDefeat.     (* state words addressed by label *)
 (* an AssemblyExpression: IntLiteral, State(LabelRef of a register word), LabelRef of a code label *)
+(* the labels of the runtime library the fragment refers to *)
+Inductive stdlab := LibWriteInt | LibWriteBool | LibDivZero | LibStackOverflow.
 Inductive sym := SLit (z : Z) | SReg (r : reg) | SLab (l : label)
                | SChar (c : Z)          (* IntLiteral(c, is_char=True), 0 <= c <= 255 *)
-               | SRegAddr (r : reg).    (* the LabelRef of a register word, as an immediate *)
+               | SRegAddr (r : reg)     (* the LabelRef of a register word, as an immediate *)
+               | SStd (x : stdlab).     (* a label of the runtime library (hidc/codegen/stdlib.py) *)
 Inductive ains :=
 | AJump (t : sym)                    (* j t *)
 | AHaltI                             (* halt *)
@@ -338,7 +345,10 @@ Definition lname_str (n : lname) : string :=
   | LLeftIsFalse => "left_is_false" | LOrEnd => "or_end"
   | LIsTrue => "is_true" | LBoolEnd => "bool_end"
   | LElse => "else" | LEndElse => "end_else"
-  | LLoop => "loop" | LContinue => "continue" | LBreak => "break"
+  | LLoop => "loop" | LContinue => "continue" | LBreak => "break" | LEndCall => "end_call"
+  | LDivAllowed => "div_allowed" | LNoOverflow => "no_overflow"
+  | LFunc O => "func_is_you"                           (* the entry point is function 0 *)
+  | LFunc f => "func_f" ++ dec (Z.of_nat f)            (* the correspondence names the others f1, f2, .. *)
   end.
 Definition label_str (l : label) : string := lname_str (fst l) ++ "_" ++ dec (Z.of_nat (snd l)).
 Definition reg_str (r : reg) : string :=
@@ -352,6 +362,8 @@ Definition sym_str (s : sym) : string :=
   | SLab l => label_str l
   | SChar c => "'" ++ bytes_str (escape_byte [39] c) ++ "'"
   | SRegAddr r => reg_str r
+  | SStd LibWriteInt => "write_int" | SStd LibWriteBool => "write_bool" | SStd LibDivZero => "division_by_zero"
+  | SStd LibStackOverflow => "stack_overflow"
   end.
 Definition cond_str (c : cond) : string :=
   match c with
@@ -393,17 +405,26 @@ Definition is_you_env (w : Z) (nparams : nat) : env :=
         w ((Z.of_nat nparams + 1) * w).
 
 (* ---------- two-pass label resolution at a base address ---------- *)
-Record regmap := mkregs { a_ap : Z; a_fp : Z; a_r0 : Z; a_r1 : Z; a_r2 : Z; a_defeat : Z }.
+Record regmap := mkregs { a_ap : Z; a_fp : Z; a_r0 : Z; a_r1 : Z; a_r2 : Z; a_defeat : Z;
+                          a_lib : Z }.      (* code address of the first instruction of the runtime library *)
+(* offsets of the library's labels, from the REGENERATED Gen/GenStdlib.v *)
+Definition std_off (x : stdlab) : Z :=
+  match x with
+  | LibWriteInt => off_write_int | LibWriteBool => off_write_bool | LibDivZero => off_division_by_zero
+  | LibStackOverflow => off_stack_overflow
+  end.
 Definition regaddr (R : regmap) (r : reg) : Z :=
   match r with RAp => a_ap R | RFp => a_fp R | R0 => a_r0 R | R1 => a_r1 R | R2 => a_r2 R | RDefeat => a_defeat R end.
 (* the state section hidc emits: ap, fp, r0, r1, r2 in this order, one word each; the `defeat`
-   word (present when defeat is virtualised) sits after the stack, at an address d *)
-Definition hidc_regs (w d : Z) : regmap := mkregs 0 w (2 * w) (3 * w) (4 * w) d.
+   word (present when defeat is virtualised) sits after the stack, at an address d; the runtime
+   library is appended to the code at address lib *)
+Definition hidc_regs (w d lib : Z) : regmap := mkregs 0 w (2 * w) (3 * w) (4 * w) d lib.
 
 Definition res_sym (R : regmap) (lab : label -> Z) (s : sym) : operand :=
   match s with
   | SLit z => Imm z | SReg r => St (regaddr R r) | SLab l => Imm (lab l)
   | SChar c => Imm c | SRegAddr r => Imm (regaddr R r)
+  | SStd x => Imm (a_lib R + std_off x)
   end.
 Definition res_ins (R : regmap) (lab : label -> Z) (i : ains) : instr :=
   let rs := res_sym R lab in
